@@ -66,6 +66,8 @@ class Effects:
                         ref_of[st["p"]["l"]] = (fe3[-1][0], fe3[-1][1])
                 if rv["k"] == "use" and is_place(rv["a"]) and not proj(rv["a"]) and rv["a"]["l"] in ref_of and not proj(st["p"]):
                     ref_of[st["p"]["l"]] = ref_of[rv["a"]["l"]]
+                if rv["k"] == "ref" and proj(rv["p"]) == ["*"] and rv["p"]["l"] in ref_of and not proj(st["p"]):
+                    ref_of[st["p"]["l"]] = ref_of[rv["p"]["l"]]        # reborrow `&*r` of `r = &place.field`
                 if rv["k"] == "ref" and rv.get("mut"):
                     fe2 = _field_elems(rv["p"])
                     for (a, fld, last) in fe2:
